@@ -92,6 +92,8 @@ def cmd_run(sid, tier="quick", pid=None):
     pid = pid or m.get("property") or sid.split("-")[0]
     rc, out = sh("git -C /repo status --porcelain --untracked-files=no")
     assert out.strip() == "", "/repo not clean: " + out
+    ev = os.path.join(HERE, "evidence", pid + ".json")
+    ev_backup = open(ev).read() if os.path.exists(ev) else None
     rca, oa = sh(f"git -C /repo apply {patch_of(d)}")
     try:
         if rca != 0:
@@ -100,6 +102,8 @@ def cmd_run(sid, tier="quick", pid=None):
         rc, out = sh(f"./check {pid} {tier}", cwd=HERE, timeout=7200)
     finally:
         sh("git -C /repo reset -q --hard HEAD")
+        if ev_backup is not None:  # the evidence of a run on a seeded tree is not evidence
+            open(ev, "w").write(ev_backup)
     lines = [l for l in out.splitlines() if l.startswith(("VIOLATION", "  obligation", "KNOWN", pid + " ", "ENGINE-ERROR"))]
     print(sid, tier, "exit", rc)
     for l in lines[:6]:
